@@ -1,43 +1,26 @@
 package main
 
 import (
-	"encoding/json"
 	"fmt"
 	"os"
-	"os/exec"
+	"sort"
+	"time"
 
-	"verif/harness/ptree"
+	"verif/harness/props"
 )
 
 func main() {
-	for _, v := range []string{"v3", "v3alpha"} {
-		src, _ := os.ReadFile("/repo/api/" + v + "/api.proto")
-		t, err := ptree.ParseProto(string(src))
-		if err != nil {
-			fmt.Println(v, "parse error:", err)
-			continue
-		}
-		out, _ := exec.Command("/verif/.cache/bin/dump" + v).Output()
-		var e ptree.Tree
-		json.Unmarshal(out, &e)
-		a, b := t.Flatten(), e.Flatten()
-		n := 0
-		for k, x := range a {
-			if b[k] != x {
-				n++
-				if n < 10 {
-					fmt.Printf("%s: proto %q embedded %q\n", k, x, b[k])
-				}
-			}
-		}
-		for k, x := range b {
-			if _, ok := a[k]; !ok {
-				n++
-				if n < 10 {
-					fmt.Printf("%s: only embedded %q\n", k, x)
-				}
-			}
-		}
-		fmt.Println(v, len(a), len(b), "differences:", n)
+	res := props.C04Profile(os.Args[1], 2000)
+	type kv struct {
+		k string
+		v time.Duration
+	}
+	var l []kv
+	for k, v := range res {
+		l = append(l, kv{k, v})
+	}
+	sort.Slice(l, func(i, j int) bool { return l[i].v > l[j].v })
+	for _, x := range l[:12] {
+		fmt.Printf("%-45s %v per call\n", x.k, x.v/2000)
 	}
 }
